@@ -8,6 +8,7 @@ it in the file (and nothing from the previous pass).  The models are tied to the
 harness (harness/cmd/c07, `Pandora.Drv.C07`); the helper lemmas are in `Pandora/Proofs/C07*.lean`.
 -/
 import Pandora.Proofs.C07Extra
+import Pandora.Proofs.C07Heap
 import Pandora.Bridge.C07
 
 namespace Pandora.Props.C07
@@ -189,11 +190,79 @@ theorem C07_regenerated_readers :
     Pandora.Gen.AmmoDec.uriReader = .scanner maxTok ∧ Pandora.Gen.AmmoDec.uripostReader = .readString 10
       ∧ Pandora.Gen.AmmoDec.rawReader = .readString 10
       ∧ Pandora.Gen.AmmoDec.uriMethod = getBytes ∧ Pandora.Gen.AmmoDec.uripostMethod = postBytes
-      ∧ Pandora.Gen.AmmoDec.uriHeaderInit = "_.Clone()" ∧ Pandora.Gen.AmmoDec.uripostHeaderInit = "_.Clone()"
+      ∧ Pandora.Gen.AmmoDec.uriHeaderOrigin = .clone ∧ Pandora.Gen.AmmoDec.uripostHeaderOrigin = .clone
       ∧ Pandora.Gen.AmmoDec.jsonURLPrefix = httpPrefix :=
   ⟨Pandora.Bridge.C07.uriReader_eq, Pandora.Bridge.C07.uripostReader_eq, Pandora.Bridge.C07.rawReader_eq,
    Pandora.Bridge.C07.methods_eq.1, Pandora.Bridge.C07.methods_eq.2,
-   Pandora.Bridge.C07.headerInit_eq.1, Pandora.Bridge.C07.headerInit_eq.2, Pandora.Bridge.C07.json_facts.1⟩
+   Pandora.Bridge.C07.headerOrigin_eq.1, Pandora.Bridge.C07.headerOrigin_eq.2, Pandora.Bridge.C07.json_facts.1⟩
+
+/-! ### ownership of the header set: WHEN the request is built does not matter
+
+The pass functions treat the running `[Header: value]` set as a value.  In the code it is a map that later header lines
+keep writing, and `BuildRequest` reads the ammo's map later, on another goroutine: while the decoder already scans
+towards the next entry (streaming), after the whole file has been scanned (`preload`), at any time with several
+instances.  `Pandora.Model.C07Heap` models the maps as heap cells and lets decoder steps and reads interleave freely. -/
+
+/-- a decoder that stores a clone of the accumulator (what /repo does: `Pandora.Bridge.C07.headerOrigin_eq`): in EVERY
+interleaving of decoder steps (header lines, entries, any number of new passes) and `BuildRequest`s (of any delivered
+ammo, at any later moment, in any order, any number of times) every `BuildRequest` sees exactly the header set of the
+value model, i.e. the header lines that precede the entry in its pass, plus the `headers` option -/
+theorem C07_clone_isolates (cfg : Hdrs) (acts : List Act) : readsRight true cfg acts :=
+  clone_readsRight cfg acts
+
+/-- the same for the CURRENT source: the origin regenerated from `readLine` / `readBlock` makes the decoder a copying one -/
+theorem C07_clone_isolates_regenerated (cfg : Hdrs) (acts : List Act) :
+    readsRight (copiesOf Pandora.Gen.AmmoDec.uriHeaderOrigin cfg) cfg acts
+      ∧ readsRight (copiesOf Pandora.Gen.AmmoDec.uripostHeaderOrigin cfg) cfg acts := by
+  rw [(Pandora.Bridge.C07.copies_eq cfg).1, (Pandora.Bridge.C07.copies_eq cfg).2]
+  exact ⟨clone_readsRight cfg acts, clone_readsRight cfg acts⟩
+
+/-- in terms of the ENTRIES: when the decoder's part of the interleaving is `n` passes over a file rendered from
+`items`, the `BuildRequest` of delivery number `j`, whenever it runs, sees the header set of entry `j mod len` of the
+Spec (`expAmmo`, header lines accumulated from nothing at every pass) merged with the `headers` option -/
+theorem C07_clone_isolates_entries (f : Fmt) (cfg : Hdrs) (items : List Item) (n : Nat) (acts : List Act)
+    (hd : decEvs acts = passEvs f items n) :
+    ∀ jh ∈ (runRef true cfg RefState.init acts).reads,
+      ((List.replicate n ((expAmmo f [] items).map (Ammo.withCfg cfg))).flatten[jh.1]?).map (·.hdrs) = some jh.2 := by
+  intro jh hjh
+  have h := clone_readsRight cfg acts jh hjh
+  unfold valueHdrs at h
+  rw [hd, valueOut_passEvs] at h
+  exact h
+
+/-- "clone only when there is a `headers` option to merge" (origin `mixed`; a seeded change did exactly this):
+the full claim for such a decoder … -/
+def C07_mixed_isolates_statement : Prop :=
+  ∀ (cfg : Hdrs) (acts : List Act), readsRight (copiesOf .mixed cfg) cfg acts
+
+/-- … holds when the option is non-empty (which is why tests that configure a header do not notice) … -/
+theorem C07_mixed_isolates_partial (cfg : Hdrs) (hc : cfg ≠ []) (acts : List Act) :
+    readsRight (copiesOf .mixed cfg) cfg acts := by
+  have : copiesOf .mixed cfg = true := by
+    cases cfg with
+    | nil => exact absurd rfl hc
+    | cons a r => rfl
+  rw [this]
+  exact clone_readsRight cfg acts
+
+/-- the witness: one entry, then a header line, then the request of the entry is built -/
+def aliasWitness : List Act :=
+  [.dec (.req { method := getBytes, url := [47, 97], body := [], tag := [], hdrs := [] }),
+   .dec (.hdr [88] [49]), .read 0]
+
+/-- … and is false without one: the entry is delivered with a header line written AFTER it -/
+theorem C07_mixed_isolates_counterexample : ¬ C07_mixed_isolates_statement := by
+  intro h
+  have h1 := h [] aliasWitness (0, [([88], [49])]) (by decide)
+  revert h1
+  decide
+
+/-- a decoder that stores the accumulator itself is wrong for every `headers` option the model gives it -/
+theorem C07_alias_counterexample : ¬ ∀ acts : List Act, readsRight false [] acts := by
+  intro h
+  have h1 := h aliasWitness (0, [([88], [49])]) (by decide)
+  revert h1
+  decide
 
 /-! ### line length: the uri format has the `bufio.Scanner` token limit (64 KiB), uripost and raw have none -/
 
@@ -328,6 +397,27 @@ theorem C07_uripost_spec (cfg : Hdrs) (items : List Item) (lay : Layout) (k : Na
       judge (expected ((expReqs .uripost cfg [] items).map reqStr) k) (expectedErr ((expReqs .uripost cfg [] items).map reqStr)) rs e = "ok" :=
   modelObs_ok .uripost (by decide) cfg items k hk _ (C07_uripost_roundtrip items lay k pre hi hl)
 
+/-- an absolute-form target `http://host[:port]/path?query` in a uri / uripost file: the request goes to `/path?query`
+with Host = the URL's authority — a `[Host: …]` line or a Host in the `headers` option does not replace it (they only
+supply the Host of origin-form targets), all other header lines apply as usual -/
+theorem C07_absolute_target (f : Fmt) (cfg h : Hdrs) (host path t b : Bytes) (r : List Item)
+    (hh : hostOK host = true) (hp : uriOK path = true) :
+    ∃ q, (expReqs f cfg h (.req (httpPrefix ++ host ++ path) t b :: r)).head? = some q ∧
+      q.host = host ∧ q.uri = path ∧ q.tag = t ∧ q.hdrs = sortHdrs ((mergeCfg h cfg).filter (fun kv => kv.1 != hostKey)) := by
+  have hne : host.isEmpty = false := by
+    cases host with
+    | nil => simp [hostOK, cut] at hh
+    | cons _ _ => rfl
+  have hparts : targetParts (httpPrefix ++ host ++ path) = (host, path) := by
+    unfold targetParts
+    rw [parseURL_http host path (Or.inr hh) hp]
+    rfl
+  by_cases hf : f = .uripost
+  · refine ⟨mkReq postBytes path host b t (mergeCfg h cfg), ?_, by simp [mkReq, hne]⟩
+    simp only [expReqs, hf, if_true, List.head?_cons, hparts]
+  · refine ⟨mkReq getBytes path host [] t (mergeCfg h cfg), ?_, by simp [mkReq, hne]⟩
+    simp only [expReqs, hf, if_false, List.head?_cons, hparts]
+
 /-! ### http/json: entity → request -/
 
 /-- after `encoding/json`: every entity becomes the request it describes (`http://host` + uri, Host, method
@@ -423,5 +513,33 @@ example : noRedef (canonKey [88, 45, 65]) [Item.req [47, 98, 63, 113, 61, 49] [1
 /-- http/json: a known entity -/
 example : ([{ host := [101, 120, 97, 109, 112, 108, 101, 46, 99, 111, 109], method := [80, 79, 83, 84], uri := [47, 97, 63, 98, 61, 99], tag := [109, 121, 32, 116, 97, 103],
               body := [123, 125], headers := [([120, 45, 97], [118])] }] : List Entity).all entityKnown = true := by decide
+
+/-- an interleaving in which every request is built late: streaming with the decoder one entry (and the header lines
+before it) ahead, then a new pass, then the reads of a second consumer — the hypotheses of `C07_clone_isolates_entries`
+are met by it (two passes over the uri example) and the reads are non-trivial (different header sets) -/
+def exActs : List Act :=
+  [.dec (.hdr [88, 45, 65] [49]), .dec (.req { method := getBytes, url := [47, 97], body := [], tag := [116], hdrs := [] }),
+   .dec (.hdr [120, 45, 97] [50]), .dec (.hdr [72, 111, 115, 116] [104]),
+   .dec (.req { method := getBytes, url := [47, 98], body := [], tag := [], hdrs := [] }), .read 0, .dec .newPass,
+   .dec (.hdr [88, 45, 65] [49]), .read 1, .read 0,
+   .dec (.req { method := getBytes, url := [47, 97], body := [], tag := [116], hdrs := [] }),
+   .dec (.hdr [120, 45, 97] [50]), .dec (.hdr [72, 111, 115, 116] [104]),
+   .dec (.req { method := getBytes, url := [47, 98], body := [], tag := [], hdrs := [] }), .dec .newPass, .read 3, .read 2]
+
+def exHdrItems : List Item :=
+  [.hdr [88, 45, 65] [49], .req [47, 97] [116] [], .hdr [120, 45, 97] [50], .hdr [72, 111, 115, 116] [104], .req [47, 98] [] []]
+
+example : decEvs exActs = passEvs .uri exHdrItems 2 := by decide
+example : (runRef true [] RefState.init exActs).reads =
+    [(0, [([88, 45, 65], [49])]), (1, [([88, 45, 65], [50]), ([72, 111, 115, 116], [104])]), (0, [([88, 45, 65], [49])]),
+     (3, [([88, 45, 65], [50]), ([72, 111, 115, 116], [104])]), (2, [([88, 45, 65], [49])])] := by decide
+/-- the same interleaving with a decoder that stores the accumulator itself: delivery 0 is built with the header lines
+that FOLLOW it (what the seeded change did in streaming mode) -/
+example : (runRef false [] RefState.init exActs).reads.head? =
+    some (0, [([88, 45, 65], [50]), ([72, 111, 115, 116], [104])]) := by decide
+example : ([([67], [118])] : Hdrs) ≠ [] := by decide
+/-- `http://h.x:8080/a?b=c` meets the hypotheses of `C07_absolute_target`, and such entries are inside `targetsKnown` -/
+example : hostOK [104, 46, 120, 58, 56, 48, 56, 48] = true ∧ uriOK [47, 97, 63, 98, 61, 99] = true
+    ∧ targetsKnown [.req (httpPrefix ++ [104, 46, 120, 58, 56, 48, 56, 48] ++ [47, 97, 63, 98, 61, 99]) [116] []] = true := by decide
 
 end Pandora.Props.C07
